@@ -1028,6 +1028,12 @@ def build_tree(root: str, spec: dict[str, Any]) -> None:
         if "hl" in ent:  # hard link to another file of the spec
             _REAL["link"](os.path.join(root, ent["hl"]), os.path.join(root, rel))
     for rel, ent in spec.items():
+        if ent.get("xattr"):  # user extended attributes (tags, origin URL ...)
+            try:
+                os.setxattr(os.path.join(root, rel), "user.xdg.tags", b"verif", follow_symlinks=False)
+            except (OSError, AttributeError):
+                pass
+    for rel, ent in spec.items():
         if ent.get("mtime") is not None:  # an old / future modification time
             try:
                 _REAL["utime"](os.path.join(root, rel), (float(ent["mtime"]), float(ent["mtime"])), follow_symlinks=False)
